@@ -1,0 +1,56 @@
+//go:build verif
+
+// Contracts for package api/indexer (comment-only; read by /verif/cmd/govc).
+package indexer
+
+// executed blocks are immutable records once accepted
+//@ type github.com/ava-labs/hypersdk/chain.ExecutedBlock valuelike
+//@ type github.com/ava-labs/hypersdk/chain.StatelessBlock valuelike
+//@ type github.com/ava-labs/hypersdk/chain.ExecutionResults valuelike
+//@ type github.com/ava-labs/hypersdk/chain.Transaction valuelike
+//@ type github.com/ava-labs/hypersdk/chain.Result valuelike
+//@ type github.com/ava-labs/avalanchego/snow/engine/snowman/block.Context valuelike
+//@ type github.com/ava-labs/hypersdk/internal/pebble.Database opaque
+
+//@ func (*Indexer).getBlockByHeight props C31
+//@   ensures err == nil ==> has(i.blockHeightToBlock, height) && result0 == i.blockHeightToBlock[height]
+//@   ensures (err == nil) == has(i.blockHeightToBlock, height)
+
+// the cached window: every cached height lies in (lastHeight - blockWindow, lastHeight] and the
+// block cached under a height has that height
+//@ spec func inWin(i *Indexer, g int) bool = i.lastHeight != MAX && g <= i.lastHeight && g + i.blockWindow > i.lastHeight
+//@ spec func RI(i *Indexer) bool = forall g uint64 :: has(i.blockHeightToBlock, g) ==> inWin(i, g) && !isnil(i.blockHeightToBlock[g]) && !isnil(i.blockHeightToBlock[g].Block) && i.blockHeightToBlock[g].Block.Hght == g
+
+//@ func github.com/ava-labs/hypersdk/chain.(*StatelessBlock).GetID
+//@   pure
+//@ func github.com/ava-labs/hypersdk/chain.(*StatelessBlock).GetHeight
+//@   pure
+//@   ensures result == b.Hght
+
+// dropping a block's id and transaction entries touches neither the height map nor the tip
+//@ func (*Indexer).evictBlockRefs props C31
+//@   requires !isnil(blk.Block) && !isnil(i.blockIDToHeight) && !isnil(i.txCache)
+//@   requires forall j int :: 0 <= j && j < len(blk.Block.Txs) ==> !isnil(blk.Block.Txs[j])
+//@   modifies i.blockIDToHeight[], i.txCache[]
+//@   loop 1 invariant 0 <= idx1 && idx1 <= len(blk.Block.Txs)
+
+// inserting an accepted block (heights arrive in increasing order, possibly with gaps after state
+// sync) keeps exactly the window ending at the new height
+//@ func (*Indexer).insertBlockIntoCache props C31
+//@   reveal RI inWin
+//@   requires RI(i) && i.blockWindow >= 1 && !isnil(i.blockHeightToBlock) && !isnil(i.blockIDToHeight) && !isnil(i.txCache)
+//@   requires !isnil(blk.Block) && blk.Block.Hght < MAX && (i.lastHeight == MAX || blk.Block.Hght > i.lastHeight)
+//@   requires forall j int :: 0 <= j && j < len(blk.Block.Txs) ==> !isnil(blk.Block.Txs[j])
+//@   requires forall g uint64, j int :: has(i.blockHeightToBlock, g) && 0 <= j && j < len(i.blockHeightToBlock[g].Block.Txs) ==> !isnil(i.blockHeightToBlock[g].Block.Txs[j])
+//@   modifies i.blockHeightToBlock[], i.blockIDToHeight[], i.txCache[], i.lastHeight
+// gap loop: visited heights at or below the new lower bound are gone, nothing else moved
+//@   loop 1 invariant forall g uint64 :: has(i.blockHeightToBlock, g) ==> old(has(i.blockHeightToBlock, g)) && i.blockHeightToBlock[g] == old(i.blockHeightToBlock[g])
+//@   loop 1 invariant forall g uint64 :: old(has(i.blockHeightToBlock, g)) && !has(i.blockHeightToBlock, g) ==> g <= blk.Block.Hght - i.blockWindow
+//@   loop 1 invariant forall g uint64 :: has(visited1, g) && g <= blk.Block.Hght - i.blockWindow ==> !has(i.blockHeightToBlock, g)
+//@   loop 1 invariant i.lastHeight == old(i.lastHeight)
+//@   loop 1 invariant forall g uint64 :: has(i.blockHeightToBlock, g) ==> !isnil(i.blockHeightToBlock[g]) && !isnil(i.blockHeightToBlock[g].Block) && i.blockHeightToBlock[g].Block.Hght == g
+//@   loop 1 invariant forall g uint64, j int :: has(i.blockHeightToBlock, g) && 0 <= j && j < len(i.blockHeightToBlock[g].Block.Txs) ==> !isnil(i.blockHeightToBlock[g].Block.Txs[j])
+//@   loop 2 invariant 0 <= idx2 && idx2 <= len(blk.Block.Txs)
+//@   loop 2 invariant forall g uint64 :: has(i.blockHeightToBlock, g) == entry(2, has(i.blockHeightToBlock, g)) && i.blockHeightToBlock[g] == entry(2, i.blockHeightToBlock[g])
+//@   ensures i.lastHeight == blk.Block.Hght && has(i.blockHeightToBlock, blk.Block.Hght) && i.blockHeightToBlock[blk.Block.Hght] == blk
+//@   ensures RI(i)
